@@ -207,6 +207,13 @@ class Opaque:
         self.term = term
 
 
+class OptV:
+    """Optional value: `isnone` (z3 Bool) and the payload used when it is not None (any executor value)."""
+
+    def __init__(self, isnone, val):
+        self.isnone, self.val = isnone, val
+
+
 class Func:
     """callable value: ('lambda', node, env) | ('bound', obj, name) | ('builtin', name) | ('class', name) | ('repo', qualname)"""
 
